@@ -69,27 +69,141 @@ def path_condition(node: ast.AST, func: ast.AST, sibling_validations: bool = Fal
     return lits
 
 
+_SCOPE = {"scope": None}
+
+
+def _local_names(func) -> set:
+    names = set()
+    comp_bound = set()
+    for n in ast.walk(func):
+        if isinstance(n, ast.comprehension):
+            for x in ast.walk(n.target):
+                if isinstance(x, ast.Name):
+                    comp_bound.add(id(x))
+    for n in ast.walk(func):
+        if isinstance(n, ast.Name) and isinstance(n.ctx, ast.Store) and id(n) not in comp_bound:
+            names.add(n.id)
+    a = func.args
+    params = {x.arg for x in [*a.posonlyargs, *a.args, *a.kwonlyargs]}
+    if a.vararg:
+        params.add(a.vararg.arg)
+    # parameters of enclosing functions are API names too
+    p = getattr(func, "_parent", None)
+    while p is not None:
+        if isinstance(p, ast.FunctionDef):
+            params |= {x.arg for x in [*p.args.posonlyargs, *p.args.args, *p.args.kwonlyargs]}
+        p = getattr(p, "_parent", None)
+    return names - params
+
+
+def resolve_lits(lits, func):
+    """Make guard tests insensitive to local naming: a bare local flag (single boolean-valued assignment)
+    is replaced by its definition, then every local name is alpha-renamed to $1, $2, ... per test."""
+    from .resolve import clone
+
+    locals_ = _local_names(func)
+    ren: dict = {}
+    out = []
+    for t, pol in reversed(lits):  # outermost condition first: numbering is shared by the whole path condition
+        t2 = _expand_flags(clone(t), func, locals_, 0)
+        out.append((_alpha(t2, locals_, ren), pol))
+    return list(reversed(out))
+
+
+def _single_def(func, name):
+    vals = [n.value for n in ast.walk(func) if isinstance(n, ast.Assign) and len(n.targets) == 1
+            and isinstance(n.targets[0], ast.Name) and n.targets[0].id == name]
+    return vals[0] if len(vals) == 1 else None
+
+
+def _expand_flags(e, func, locals_, depth):
+    from .resolve import clone
+
+    class T(ast.NodeTransformer):
+        def visit_Name(self, node):
+            if depth < 2 and isinstance(node.ctx, ast.Load) and node.id in locals_:
+                d = _single_def(func, node.id)
+                if d is not None and _is_boolean_expr(d):
+                    return _expand_flags(clone(d), func, locals_, depth + 1)
+            return node
+    return T().visit(e)
+
+
+def _is_boolean_expr(d) -> bool:
+    if isinstance(d, (ast.Compare, ast.BoolOp)):
+        return True
+    if isinstance(d, ast.UnaryOp) and isinstance(d.op, ast.Not):
+        return True
+    if isinstance(d, ast.Call) and call_name(d) in ("isinstance", "any", "all", "hasattr", "callable", "bool", "sparse.issparse"):
+        return True
+    return False
+
+
+def _alpha(e, locals_, ren=None):
+    ren = {} if ren is None else ren
+    bound_here = set()
+    for n in ast.walk(e):
+        if isinstance(n, ast.comprehension):
+            for x in ast.walk(n.target):
+                if isinstance(x, ast.Name):
+                    bound_here.add(x.id)
+    locals_ = locals_ - bound_here
+
+    class T(ast.NodeTransformer):
+        def visit_Name(self, node):
+            if node.id in locals_:
+                return ast.copy_location(ast.Name(id="L", ctx=node.ctx), node)
+            return node
+    return T().visit(e)
+
+
 def canon_atom(a: ast.AST):
-    """-> (text, polarity) with `X is None` / `not ...` / `!=` normalised."""
+    """-> (text, polarity): inlined helpers, canonical idioms, alpha-renamed comprehension variables,
+    `X is None` / `!=` / `not in` / `>=` / `any(not P)` normalised to a positive atom plus polarity."""
+    from .resolve import resolved
+    from .sem import canon, inline
+
+    if _SCOPE["scope"] is not None:
+        a = inline(a, _SCOPE["scope"])
+    a = canon(a)
+    a = resolved(a, {})  # alpha-renames comprehension variables
+    pol = True
+    while isinstance(a, ast.UnaryOp) and isinstance(a.op, ast.Not):
+        a, pol = a.operand, not pol
+    if isinstance(a, ast.Call) and call_name(a) == "any" and len(a.args) == 1 and isinstance(a.args[0], ast.GeneratorExp):
+        g = a.args[0]
+        pos = None
+        if isinstance(g.elt, ast.UnaryOp) and isinstance(g.elt.op, ast.Not):
+            pos = g.elt.operand
+        elif isinstance(g.elt, ast.Compare) and len(g.elt.ops) == 1 and isinstance(g.elt.ops[0], (ast.NotIn, ast.IsNot, ast.NotEq)):
+            flip = {ast.NotIn: ast.In, ast.IsNot: ast.Is, ast.NotEq: ast.Eq}[type(g.elt.ops[0])]
+            pos = ast.Compare(left=g.elt.left, ops=[flip()], comparators=g.elt.comparators)
+        if pos is not None:  # any(not P) == not all(P)
+            inner = ast.GeneratorExp(elt=pos, generators=g.generators)
+            return (norm(ast.Call(func=ast.Name(id="all", ctx=ast.Load()), args=[inner], keywords=[])), not pol)
     if isinstance(a, ast.Compare) and len(a.ops) == 1:
         l, r, op = a.left, a.comparators[0], a.ops[0]
         if isinstance(r, ast.Constant) and r.value is None:
             if isinstance(op, ast.Is):
-                return (f"{norm(l)} is not None", False)
+                return (f"{norm(l)} is not None", not pol)
             if isinstance(op, ast.IsNot):
-                return (f"{norm(l)} is not None", True)
+                return (f"{norm(l)} is not None", pol)
         if isinstance(op, ast.NotEq):
-            return (f"{norm(l)} == {norm(r)}", False)
+            return (f"{norm(l)} == {norm(r)}", not pol)
         if isinstance(op, ast.IsNot):
-            return (f"{norm(l)} is {norm(r)}", False)
+            return (f"{norm(l)} is {norm(r)}", not pol)
         if isinstance(op, ast.NotIn):
-            return (f"{norm(l)} in {norm(r)}", False)
-        if isinstance(op, ast.GtE):
-            return (f"{norm(l)} < {norm(r)}", False)
-        if isinstance(op, ast.LtE):
-            return (f"{norm(l)} > {norm(r)}", False)
-    # Python truthiness of len(x): `not len(x)` etc. stay textual
-    return (norm(a), True)
+            return (f"{norm(l)} in {norm(r)}", not pol)
+        if isinstance(op, ast.LtE):  # canon() has already mirrored > and >= into < and <=
+            return (f"{norm(r)} < {norm(l)}", not pol)
+        if isinstance(op, ast.Eq) and isinstance(r, ast.Constant) and r.value == 0 and isinstance(l, ast.Call) and call_name(l) == "len":
+            return (norm(l), not pol)
+    return (norm(a), pol)
+
+
+def atom_text(text: str) -> str:
+    """Canonical form of an atom given as source text (used for the expected-guards table)."""
+    return canon_atom(ast.parse(text, mode="eval").body)[0]
 
 
 def condition_table(lits):
@@ -153,94 +267,97 @@ def raises_in(func):
 A = lambda *names: list(names)
 
 EXPECTED = [
-    # (id, function, exception, atoms, formula, what)
+    # (id, function, exception, atoms (canonical: helpers inlined, idioms normalised, every LOCAL name erased to `L`,
+    #  comprehension variables _v0.., parameters kept), formula, what)
     ("custom-solver+full-diag", "block_diagonalize", "NotImplementedError",
      A("solve_sylvester is not None", "fully_diagonalize"), lambda e: e["solve_sylvester is not None"] and e["fully_diagonalize"],
      "custom Sylvester solver combined with fully_diagonalize"),
     ("hermitian+pairs", "block_diagonalize", "ValueError",
-     A("subspace_eigenvectors is not None", "hermitian", "any((isinstance(subspace, tuple) for subspace in subspace_eigenvectors))"),
+     A("subspace_eigenvectors is not None", "hermitian", "any((isinstance(_v0, tuple) for _v0 in subspace_eigenvectors))"),
      lambda e: all(e.values()), "Hermitian mode given (right, left) subspace pairs"),
     ("implicit+blocks", "block_diagonalize", "ValueError",
-     A("use_implicit", "hamiltonian.shape"), lambda e: all(e.values()), "implicit mode with an input already separated into blocks"),
+     A("L", "hamiltonian.shape"), lambda e: all(e.values()), "implicit mode with an input already separated into blocks"),
     ("implicit+symbolic", "block_diagonalize", "ValueError",
-     A("use_implicit", "isinstance(h_0, sympy.MatrixBase)"), lambda e: all(e.values()), "implicit mode with a symbolic Hamiltonian"),
+     A("L", "isinstance(L, sympy.MatrixBase)"), lambda e: all(e.values()), "implicit mode with a symbolic Hamiltonian"),
     ("nonhermitian-implicit+kpm", "block_diagonalize", "NotImplementedError",
-     A("use_implicit", "hermitian", "solve_sylvester is not None", "direct_solver"),
-     lambda e: e["use_implicit"] and not e["hermitian"] and not e["solve_sylvester is not None"] and not e["direct_solver"],
+     A("L", "hermitian", "solve_sylvester is not None", "direct_solver"),
+     lambda e: e["L"] and not e["hermitian"] and not e["solve_sylvester is not None"] and not e["direct_solver"],
      "non-Hermitian implicit mode with the KPM solver"),
     ("implicit-shape", "block_diagonalize", "ValueError",
-     A("use_implicit", "h_0.shape[0] == right_subspaces[0].shape[0]"),
-     lambda e: e["use_implicit"] and not e["h_0.shape[0] == right_subspaces[0].shape[0]"], "eigenvector dimension differs from H_0"),
+     A("L", "L.shape[0] == L[0].shape[0]"),
+     lambda e: e["L"] and not e["L.shape[0] == L[0].shape[0]"], "eigenvector dimension differs from H_0"),
     ("implicit-numpy-vectors", "block_diagonalize", "TypeError",
-     A("use_implicit", "solve_sylvester is not None", "all((isinstance(vecs, np.ndarray) for vecs in (*right_subspaces, *left_subspaces)))"),
-     lambda e: e["use_implicit"] and not e["solve_sylvester is not None"] and not e["all((isinstance(vecs, np.ndarray) for vecs in (*right_subspaces, *left_subspaces)))"],
+     A("L", "solve_sylvester is not None", "all((isinstance(_v0, np.ndarray) for _v0 in (*L, *L)))"),
+     lambda e: e["L"] and not e["solve_sylvester is not None"] and not e["all((isinstance(_v0, np.ndarray) for _v0 in (*L, *L)))"],
      "implicit mode needs numpy subspace vectors"),
     ("kpm+pairs", "block_diagonalize", "NotImplementedError",
-     A("use_implicit", "solve_sylvester is not None", "direct_solver", "any((isinstance(subspace, tuple) for subspace in subspace_eigenvectors))"),
-     lambda e: e["use_implicit"] and not e["solve_sylvester is not None"] and not e["direct_solver"]
-     and e["any((isinstance(subspace, tuple) for subspace in subspace_eigenvectors))"],
+     A("L", "solve_sylvester is not None", "direct_solver", "any((isinstance(_v0, tuple) for _v0 in subspace_eigenvectors))"),
+     lambda e: e["L"] and not e["solve_sylvester is not None"] and not e["direct_solver"]
+     and e["any((isinstance(_v0, tuple) for _v0 in subspace_eigenvectors))"],
      "KPM solver with distinct left and right vectors"),
     ("multiblock+array-mask", "block_diagonalize", "ValueError",
-     A("H.shape[0] == 1", "isinstance(fully_diagonalize, (np.ndarray, sympy.MatrixBase, sympy.Expr))"),
-     lambda e: not e["H.shape[0] == 1"] and e["isinstance(fully_diagonalize, (np.ndarray, sympy.MatrixBase, sympy.Expr))"],
+     A("L.shape[0] == 1", "isinstance(fully_diagonalize, (np.ndarray, sympy.MatrixBase, sympy.Expr))"),
+     lambda e: not e["L.shape[0] == 1"] and e["isinstance(fully_diagonalize, (np.ndarray, sympy.MatrixBase, sympy.Expr))"],
      "bare array mask with several blocks"),
-    ("zero-diagonal", "block_diagonalize", "ValueError", A("nonzero_blocks"), lambda e: not e["nonzero_blocks"],
+    ("zero-diagonal", "block_diagonalize", "ValueError", A("L"), lambda e: not e["L"],
      "the diagonal of H_0 is entirely zero"),
     ("implicit+full-diag", "block_diagonalize", "ValueError",
-     A("isinstance(H[-1, -1, *zero_order], sparse.linalg.LinearOperator)", "H.shape[0] - 1 in fully_diagonalize"),
+     A("isinstance(L[-1, -1, *L], sparse.linalg.LinearOperator)", "L.shape[0] - 1 in fully_diagonalize"),
      lambda e: all(e.values()), "fully diagonalising the implicit block"),
     ("implicit+mul", "block_diagonalize", "ValueError",
-     A("isinstance(H[-1, -1, *zero_order], sparse.linalg.LinearOperator)", "operator is matmul"),
-     lambda e: e["isinstance(H[-1, -1, *zero_order], sparse.linalg.LinearOperator)"] and not e["operator is matmul"],
+     A("isinstance(L[-1, -1, *L], sparse.linalg.LinearOperator)", "L is matmul"),
+     lambda e: e["isinstance(L[-1, -1, *L], sparse.linalg.LinearOperator)"] and not e["L is matmul"],
      "implicit mode without matmul"),
     ("legacy-solver+nonhermitian", "block_diagonalize", "NotImplementedError",
      A("len(signature(solve_sylvester).parameters) == 1", "hermitian"),
      lambda e: e["len(signature(solve_sylvester).parameters) == 1"] and not e["hermitian"],
      "one-argument Sylvester solver in non-Hermitian mode"),
     ("mask-type", "block_diagonalize", "ValueError",
-     A("fully_diagonalize", "operators", "isinstance(fully_diagonalize, dict)", "isinstance(to_eliminate, np.ndarray)"),
-     lambda e: e["fully_diagonalize"] and not e["operators"] and e["isinstance(fully_diagonalize, dict)"] and not e["isinstance(to_eliminate, np.ndarray)"],
+     A("fully_diagonalize", "L", "isinstance(fully_diagonalize, dict)", "isinstance(L, np.ndarray)"),
+     lambda e: e["fully_diagonalize"] and not e["L"] and e["isinstance(fully_diagonalize, dict)"] and not e["isinstance(L, np.ndarray)"],
      "mask of the wrong type for a matrix problem"),
     ("mask-symmetric", "block_diagonalize", "ValueError",
-     A("fully_diagonalize", "operators", "isinstance(fully_diagonalize, dict)", "hermitian", "(to_eliminate == to_eliminate.T).all()"),
-     lambda e: e["fully_diagonalize"] and not e["operators"] and e["isinstance(fully_diagonalize, dict)"] and e["hermitian"]
-     and not e["(to_eliminate == to_eliminate.T).all()"], "asymmetric mask in Hermitian mode"),
+     A("fully_diagonalize", "L", "isinstance(fully_diagonalize, dict)", "hermitian", "(L == L.T).all()"),
+     lambda e: e["fully_diagonalize"] and not e["L"] and e["isinstance(fully_diagonalize, dict)"] and e["hermitian"]
+     and not e["(L == L.T).all()"], "asymmetric mask in Hermitian mode"),
     ("mask-degenerate", "block_diagonalize", "ValueError",
-     A("fully_diagonalize", "operators", "isinstance(fully_diagonalize, dict)", "(to_eliminate & equal_eigs[i]).any()"),
-     lambda e: e["fully_diagonalize"] and not e["operators"] and e["isinstance(fully_diagonalize, dict)"] and e["(to_eliminate & equal_eigs[i]).any()"],
+     A("fully_diagonalize", "L", "isinstance(fully_diagonalize, dict)", "(L & L[L]).any()"),
+     lambda e: e["fully_diagonalize"] and not e["L"] and e["isinstance(fully_diagonalize, dict)"] and e["(L & L[L]).any()"],
      "mask eliminates an element between equal unperturbed energies"),
     ("operator-invalid", "block_diagonalize", "ValueError",
-     A("all((hasattr(H, '__matmul__') for H in nonzero_blocks))", "all((hasattr(H, '__mul__') for H in nonzero_blocks))"),
-     lambda e: not e["all((hasattr(H, '__matmul__') for H in nonzero_blocks))"] and not e["all((hasattr(H, '__mul__') for H in nonzero_blocks))"],
+     A("all((hasattr(_v0, '__matmul__') for _v0 in L))", "all((hasattr(_v0, '__mul__') for _v0 in L))"),
+     lambda e: not e["all((hasattr(_v0, '__matmul__') for _v0 in L))"] and not e["all((hasattr(_v0, '__mul__') for _v0 in L))"],
      "H_0 blocks support neither @ nor *"),
     ("eigvecs+indices", "operator_to_BlockSeries", "ValueError",
      A("subspace_eigenvectors is not None", "subspace_indices is not None"), lambda e: all(e.values()),
      "subspace_eigenvectors together with subspace_indices"),
-    ("blocks+split", "operator_to_BlockSeries", "ValueError", A("operator.shape", "to_split"), lambda e: all(e.values()),
+    ("blocks+split", "operator_to_BlockSeries", "ValueError",
+     A("operator.shape", "subspace_eigenvectors is not None", "subspace_indices is not None"),
+     lambda e: e["operator.shape"] and (e["subspace_eigenvectors is not None"] or e["subspace_indices is not None"]),
      "already-blocked operator together with subspaces"),
     ("nonsquare-blocks", "operator_to_BlockSeries", "ValueError", A("operator.shape", "operator.shape[0] == operator.shape[1]"),
      lambda e: e["operator.shape"] and not e["operator.shape[0] == operator.shape[1]"], "non-square block structure"),
     ("hermitian+pairs(op)", "operator_to_BlockSeries", "ValueError",
-     A("subspace_eigenvectors is not None", "hermitian", "any((isinstance(subspace, tuple) for subspace in subspace_eigenvectors))"),
+     A("subspace_eigenvectors is not None", "hermitian", "any((isinstance(_v0, tuple) for _v0 in subspace_eigenvectors))"),
      lambda e: all(e.values()), "Hermitian operator given (right, left) pairs"),
     ("unsupported-input", "_to_scalar_BlockSeries", "TypeError", A(), lambda e: True, "unsupported container type falls through to TypeError"),
     ("symbols-not-in-H", "_sympy_to_BlockSeries", "ValueError",
-     A("any((n not in operator.free_symbols for n in symbols))"), lambda e: all(e.values()), "perturbative symbol absent from the Hamiltonian"),
+     A("any((_v0 not in operator.free_symbols for _v0 in symbols))"), lambda e: all(e.values()), "perturbative symbol absent from the Hamiltonian"),
     ("noncommutative-keys", "_symbolic_keys_to_tuples", "ValueError",
-     A("all((symbol.is_commutative for symbol in symbols))"), lambda e: not any(e.values()), "non-commutative perturbation symbols"),
+     A("all((_v0.is_commutative for _v0 in L))"), lambda e: not any(e.values()), "non-commutative perturbation symbols"),
     ("non-monomial-keys", "_symbolic_keys_to_tuples", "ValueError",
-     A("monomial.keys() - set(symbols) - {1}"), lambda e: all(e.values()), "dictionary key is not a monomial"),
+     A("L.keys() - set(L) - {1}"), lambda e: all(e.values()), "dictionary key is not a monomial"),
     ("pair-length", "_normalize_subspace_eigenvectors", "ValueError",
-     A("isinstance(subspace, tuple)", "len(subspace) == 2"), lambda e: e["isinstance(subspace, tuple)"] and not e["len(subspace) == 2"],
+     A("isinstance(L, tuple)", "len(L) == 2"), lambda e: e["isinstance(L, tuple)"] and not e["len(L) == 2"],
      "subspace tuple that is not a pair"),
     ("pair-dim", "_normalize_subspace_eigenvectors", "ValueError",
-     A("right.shape[0] == left.shape[0]"), lambda e: not any(e.values()), "left/right ambient dimension mismatch"),
+     A("L.shape[0] == L.shape[0]"), lambda e: not any(e.values()), "left/right ambient dimension mismatch"),
     ("pair-count", "_normalize_subspace_eigenvectors", "ValueError",
-     A("right.shape[1] == left.shape[1]"), lambda e: not any(e.values()), "left/right number of vectors mismatch"),
+     A("L.shape[1] == L.shape[1]"), lambda e: not any(e.values()), "left/right number of vectors mismatch"),
     ("legacy-solver-blocks", "_preprocess_sylvester::wrapped", "ValueError",
      A("index[:2] in {(0, 1), (1, 0)}"), lambda e: not any(e.values()), "legacy solver asked for a block pair other than (0,1)/(1,0)"),
     ("number-conserving-H0", "second_quantization::solve_sylvester_2nd_quant", "ValueError",
-     A("any((not eig.is_particle_conserving() for eig_block in eigs for eig in eig_block))"), lambda e: all(e.values()),
+     A("any((not _v1.is_particle_conserving() for _v0 in eigs for _v1 in _v0))"), lambda e: all(e.values()),
      "second-quantised H_0 that does not conserve particle number"),
 ]
 
@@ -248,6 +365,8 @@ EXPECTED = [
 def rule_guards(rep: Report, repo: Repo):
     inv_count = 0
     by_func = {}
+    matched: dict = {}
+    pending = []
     for gid, fq, exc, atoms, formula, what in EXPECTED:
         mod = MOD
         q = fq
@@ -255,10 +374,12 @@ def rule_guards(rep: Report, repo: Repo):
             mod, q = fq.split("::", 1)
         key = (mod, q)
         if key not in by_func:
+            from .sem import Scope
             f = repo.find(f"{mod}::{q}", RULE)
+            _SCOPE["scope"] = Scope(repo.trees[mod], f)
             inv = []
             for r, e in raises_in(f):
-                lits = path_condition(r, f)
+                lits = resolve_lits(path_condition(r, f), f)
                 try:
                     names, rows = condition_table(lits)
                 except AnalysisError:
@@ -267,25 +388,44 @@ def rule_guards(rep: Report, repo: Repo):
             by_func[key] = (f, inv)
             inv_count += len(inv)
         f, inv = by_func[key]
-        want = formula_rows(atoms, formula)
+        _SCOPE["scope"] = None
+        cpairs = [canon_atom(ast.parse(x, mode="eval").body) for x in atoms]
+        catoms = [c for c, _ in cpairs]
+        want = set()
+        for vals in product([False, True], repeat=len(catoms)):
+            env = {orig: (v if pol else not v) for orig, (_c, pol), v in zip(atoms, cpairs, vals)}
+            if formula(env):
+                want.add(vals)
+        atoms_c = catoms
         found = None
         for r, e, names, rows, lits in inv:
             if e != exc or names is None:
                 continue
-            proj = project(names, rows, atoms)
-            if proj is not None and proj == want and set(names) == set(atoms):
+            proj = project(names, rows, atoms_c)
+            if proj is not None and proj == want and set(names) == set(atoms_c):
                 found = r
                 break
         inst = f"{mod}::{q} guard `{gid}`: {what} -> {exc}"
         if found is not None:
+            matched.setdefault(key, set()).add(id(found))
             rep.ok(RULE, inst, "raise with exactly this truth table on " + (", ".join(atoms) or "(unconditional fall-through)"),
                    repo.loc(mod, found))
         else:
-            near = [f"L{r.lineno}:{' and '.join(('' if pol else 'not ') + norm(t)[:50] for t, pol in lits)[:160]}"
-                    for r, e, names, rows, lits in inv if e == exc][:4]
-            rep.fail(RULE, f"{mod}::{q} guard `{gid}` missing or weakened: {what} must raise {exc}",
-                     f"no `raise {exc}` in {q} has the required truth table over atoms {atoms}; candidates: {near}",
-                     repo.loc(mod, f))
+            pending.append((gid, mod, q, exc, atoms_c, want, what, f, inv))
+    # second pass: a guard that was not found is MISSING (violation) unless an unmatched raise of the same class exists
+    # whose condition is written in a form that shares nothing with the expected atoms (then: cannot decide)
+    for gid, mod, q, exc, atoms_c, want, what, f, inv in pending:
+        key = (mod, q)
+        cands = [(r, names, rows, lits) for r, e, names, rows, lits in inv if e == exc and id(r) not in matched.get(key, set())]
+        near = [f"L{r.lineno}:{' and '.join(('' if pol else 'not ') + norm(t)[:50] for t, pol in lits)[:160]}" for r, _n, _rw, lits in cands][:4]
+        related = [c for c in cands if c[1] is not None and (set(c[1]) & set(atoms_c) or not atoms_c)]
+        unrelated = [c for c in cands if c not in related]
+        if not related and unrelated:
+            raise AnalysisError(RULE, f"{mod}::{q} guard `{gid}` ({what}): no raise has the expected atoms {atoms_c}, but `raise {exc}` "
+                                      f"statements with conditions in another form exist: {near}")
+        rep.fail(RULE, f"{mod}::{q} guard `{gid}` missing or weakened: {what} must raise {exc}",
+                 f"no `raise {exc}` in {q} has the required truth table over atoms {atoms_c}; candidates: {near}",
+                 repo.loc(mod, f))
     rep.count("E5.raise_sites_inventoried", inv_count)
     rep.floor(RULE, "raise sites inventoried", inv_count, 30)
 
